@@ -101,10 +101,14 @@ func gen(t *rapid.T) Case {
 	maxLen := 1 << 20
 	if rapid.IntRange(0, 7).Draw(t, "limited") == 0 {
 		c.Limit = rapid.SampledFrom([]string{"client", "server"}).Draw(t, "limitmode")
-		c.LimitKB = rapid.SampledFrom([]int{128, 256, 512}).Draw(t, "limitkb")
-		maxLen = c.LimitKB * 1024 * 2
+		// small limits matter: the copy loops hand the limiter 16 KiB (and larger) writes, more than one burst
+		c.LimitKB = rapid.SampledFrom([]int{4, 8, 16, 64, 128, 512}).Draw(t, "limitkb")
+		maxLen = c.LimitKB * 1024
 	}
 	n := rapid.IntRange(1, 5).Draw(t, "nconns")
+	if c.Limit != "" && n > 3 {
+		n = 3 // every stream may take a second
+	}
 	for i := 0; i < n; i++ {
 		l := fmt.Sprintf("c%d", i)
 		cs := ConnScript{Proxy: rapid.IntRange(0, c.NProxies-1).Draw(t, l+"/proxy"), Up: genStream(t, l+"/up", maxLen), Down: genStream(t, l+"/down", maxLen),
@@ -675,7 +679,7 @@ func run1(c Case) error {
 			return fmt.Errorf("backend of proxy %d received a connection that does not start with what a user sent: %s (%+v)", bc.proxy, tag, caseBrief(c))
 		}
 	}
-	totalBytes := 0
+	delivered := make([]int, len(c.Conns))
 	for k, cs := range c.Conns {
 		r := results[k]
 		tag := fmt.Sprintf("C%06d", k)
@@ -685,7 +689,7 @@ func run1(c Case) error {
 		}
 		bc := bconns[tag]
 		if bc == nil {
-			if cs.Mode == "user-early" || (!reliable(c) && cs.Mode == "user-closes") {
+			if cs.Mode == "user-early" || (!reliable(c) && cs.Mode != "duplex") {
 				continue // (raw kcp: what the closing side wrote last is not flushed)
 			}
 			return fmt.Errorf("%s: never reached any backend (user got header %q, read err %v)", desc, r.hdr, r.down.err)
@@ -733,7 +737,7 @@ func run1(c Case) error {
 				return fmt.Errorf("%s: the user wrote its whole stream and closed while the backend was only reading; the backend received %d of %d bytes before end-of-stream (%v)", desc, upN, cs.Up.Len, bc.up.err)
 			}
 		}
-		totalBytes += upN + r.down.n
+		delivered[k] = upN + r.down.n
 	}
 	// (3) every peer connection is closed within bounded time
 	if !peerClosed && !reliable(c) && fx.Known("C01", "raw-kcp-close") && !probeMode {
@@ -747,13 +751,52 @@ func run1(c Case) error {
 		}
 		return fmt.Errorf("15 s after every user connection was closed some backend connections are still open: %v (%s)", st, caseBrief(c))
 	}
-	// (5) rate: what all connections of the proxy delivered, both directions, within the observed window
-	if c.Limit != "" && c.NProxies == 1 {
+	if os.Getenv("VERIF_C01_SLOW") != "" {
+		for k := range c.Conns {
+			r := results[k]
+			fmt.Printf("TIMELINE conn %d user-recv:", k)
+			for i, t := range r.down.times {
+				fmt.Printf(" %dms:%d", t.Sub(t0).Milliseconds(), r.down.counts[i])
+			}
+			fmt.Printf("\nTIMELINE conn %d backend-recv:", k)
+			if bc := bconns[fmt.Sprintf("C%06d", k)]; bc != nil {
+				for i, t := range bc.up.times {
+					fmt.Printf(" %dms:%d", t.Sub(t0).Milliseconds(), bc.up.counts[i])
+				}
+			}
+			fmt.Println()
+		}
+	}
+	// (5) rate: a byte is received after it passed the limiter, and the proxy's bucket (rate = burst = L) was full at most
+	// once since the proxy started: what all connections of one proxy delivered (both directions) up to the last
+	// receive is bounded by L x (that time) + L
+	if c.Limit != "" {
 		L := float64(c.LimitKB * 1024)
-		T := tEnd.Sub(t0).Seconds()
-		allowed := L*T + L + 256*1024
-		if float64(totalBytes) > allowed {
-			return fmt.Errorf("bandwidth limit %d KB/s (%s side): %d bytes were delivered in %.2f s, more than limit x interval + one burst (+256 KiB of buffers) = %.0f (%s)", c.LimitKB, c.Limit, totalBytes, T, allowed, caseBrief(c))
+		for pi := 0; pi < c.NProxies; pi++ {
+			last, sum := t0, 0
+			for k, cs := range c.Conns {
+				if cs.Proxy != pi {
+					continue
+				}
+				sum += delivered[k]
+				ts := [][]time.Time{results[k].down.times}
+				if bc := bconns[fmt.Sprintf("C%06d", k)]; bc != nil {
+					if bc.got.Load()>>40 == 0 {
+						ts = append(ts, []time.Time{tEnd}) // its reader is still running
+					} else {
+						ts = append(ts, bc.up.times)
+					}
+				}
+				for _, t := range ts {
+					if len(t) > 0 && t[len(t)-1].After(last) {
+						last = t[len(t)-1]
+					}
+				}
+			}
+			T := last.Sub(t0).Seconds()
+			if allowed := L*T + L; float64(sum) > allowed {
+				return fmt.Errorf("bandwidth limit %d KB/s (%s side): proxy %d delivered %d payload bytes within %.3f s of the first connection, more than limit x interval + one burst = %.0f (%s)", c.LimitKB, c.Limit, pi, sum, T, allowed, caseBrief(c))
+			}
 		}
 	}
 	return nil
@@ -813,7 +856,7 @@ var probeMode bool
 // nothing to the peer; the other side's half of the tunnel (and the backend / user connection behind it)
 // stays open until that side closes on its own.
 func TestKnownRawKCPClose(t *testing.T) {
-	if fx.Shard() != 0 {
+	if fx.Shard() != 0 || os.Getenv("VERIF_REPLAY") != "" {
 		return
 	}
 	c := Case{Kind: "tcp", Transport: "kcp", NProxies: 1, Conns: []ConnScript{{Proxy: 0, Up: Stream{Len: 1, Content: "rand", Chunk: "one", Seed: 1}, Down: Stream{Len: 0, Content: "rand", Chunk: "one", Seed: 1}, Mode: "duplex"}}}
